@@ -186,6 +186,67 @@ def gen_lopsided_cube(rng):
     return add_cube_forms(rng, {"dims": specs, "shape": shape, "format": list(rng.choice(FORMATS)), "N": N})
 
 
+# --------------------------------------------------------------------------- kept cubes (multi-step histories on ONE cube object)
+def gen_kept_cube(rng):
+    """A script for ONE long-lived count cube (c14.gen_kept + shift_common rounds): one-axis dims, an explicit shape with
+    room for the categories added later (the extents of a cube are fixed at construction), then 2-5 rounds of legitimate
+    IN-PLACE changes of the dims - iindex.append on every dim (rows in existing / new categories: N changes, the common may
+    shift), iindex.update moving rows, idx[(k,)] = array, shift_common() - each followed by count() on the SAME cube."""
+    from . import c14
+    script = c14.gen_kept(rng)
+    rounds = []
+    for op in script["rounds"]:
+        rounds.append(op)
+        if rng.random() < 0.3:
+            rounds.append({"op": "shift_common", "dim": rng.randrange(len(script["dims"])), "kind": "shift_common",
+                           "expect": op["expect"], "between": "none", "mode": op["mode"]})
+    script["rounds"] = rounds
+    top = max([v for op in rounds for col in op["expect"] for v in col] + [sp["common"] for sp in script["dims"]]
+              + [v for sp in script["dims"] for v in sp["arr"]])
+    script["shape"] = [top + 1 + rng.choice([0, 1]) for _ in script["dims"]]
+    script["formats"] = [list(rng.choice(FORMATS)) for _ in range(len(rounds) + 1)]
+    script["second_cube"] = rng.random() < 0.5
+    return script
+
+
+def run_kept_cube(ctx, script):
+    """-> list of (pseudo-case describing the dims' CURRENT state, out dict as run_cube's, round, which cube)"""
+    from catii import ccube, iindex
+    from . import c14
+    dims = cubelib.build_dims(script["dims"])
+    shape = tuple(script["shape"])
+    cube = ccube(dims, interacting_shape=shape)          # built ONCE
+    cube2 = ccube(dims, interacting_shape=shape)         # a second cube object sharing the dimension objects
+    results = []
+
+    def look(which, k):
+        kind, null = script["formats"][k]
+        rma = NAN if kind == "nan" else ((null, False) if kind == "pair" else null)
+        case = {"dims": [{"arr": [int(v) for v in d.to_array(dtype=numpy.int64).tolist()], "common": int(d.common)} for d in dims],
+                "shape": list(shape), "format": [kind, null], "N": int(dims[0].shape[0])}
+        c = cube if which == "kept" else cube2
+        out = {"dims": dims, "raised": None, "shape": tuple(int(e) for e in c.interacting_shape),
+               "scaffold": tuple(int(e) for e in c.scaffold_shape)}
+        try:
+            res = c.count(return_missing_as=rma)
+            out["vals"], out["valid"], out["missing"] = abstract_result(res, (kind, null))
+        except (IndexError, ValueError, TypeError, OverflowError, KeyError, ZeroDivisionError) as e:
+            out["raised"] = type(e).__name__
+            out["message"] = str(e)[:200]
+        out["lits"] = coq_cases(ctx, case, out)        # NOW: the dims are live objects and change in the next round
+        results.append((case, out, k, which))
+    look("kept", 0)
+    for k, op in enumerate(script["rounds"], 1):
+        if op["op"] == "shift_common":
+            dims[op["dim"]].shift_common()
+        else:
+            c14.apply_op(iindex, dims, op)
+        look("kept", k)
+        if script["second_cube"]:
+            look("second", k)
+    return results
+
+
 # --------------------------------------------------------------------------- observation
 def abstract_result(res, fmt):
     """-> (values ndarray of object: int or None for NaN, validity ndarray of bool, missing ndarray of bool)"""
@@ -415,7 +476,10 @@ def run(ctx):
                 "maxima would need 2^31-cell regions and are not generated); relations: the very same iindex object (1-3 axes) at two or three "
                 "positions of dims (A A, A B A, A A A), equal-content twins as distinct objects (other construction path / dict order), "
                 "zero-entry dimensions, the same cube object asked twice (count twice, interactions then count), a warm-up cube over the same "
-                "objects in another order whose table must be the transpose; a case = one sub-cube block, "
+                "objects in another order whose table must be the transpose; kept cubes: ONE ccube object (explicit shape with room; optionally a second cube sharing the "
+                "dims) whose count() is taken, its one-axis dims changed IN PLACE (iindex.append into existing / new categories - N changes -, "
+                "iindex.update moving rows, idx[(k,)] = array, shift_common()), and count() taken on the SAME object again, 2-5 rounds, each "
+                "compared with the contingency table of the dims' current state; a case = one sub-cube block, "
                 "distinct per literal, non-trivial when N > 0 and it has at least one dimension")
     ctx.trusted = list(core.STD_TRUSTED) + [
         "SetOps: set_intersect_merge_np(base, rowids) = inter_spec base rowids on increasing inputs (property C08)",
@@ -486,6 +550,29 @@ def run(ctx):
             ctx.samples.append({"dims": [{"arr": s["arr"], "common": s["common"]} for s in case["dims"]], "shape": case["shape"],
                                 "format": case["format"],
                                 "result": numpy.asarray(out["vals"]).tolist() if numpy.asarray(out["vals"]).size <= 300 else "(%d cells)" % numpy.asarray(out["vals"]).size})
+    # kept cubes: count() on one cube object before and after in-place changes of its dims
+    n_kept = 500 if thorough else 60
+    kept_dist = collections.Counter()
+    for k in range(n_kept):
+        script = gen_kept_cube(ctx.rng)
+        for case, out, rnd, which in run_kept_cube(ctx, script):
+            n_cubes += 1
+            kept_dist["observations"] += 1
+            bad = judge(case, out) if in_domain(case) else None
+            if bad:
+                found.append(dict(strip(case), difference=bad, kept=script, round=rnd, cube=which))
+            for l in out["lits"]:
+                cases.append(l)
+                metas.append(dict(case, kept_round=rnd))
+                if case["N"] > 0:
+                    ctx.nontrivial.add((l, "kept", rnd, which))
+        kept_dist["objects"] += 1
+        kept_dist["with a second cube sharing the dims"] += int(script["second_cube"])
+        for op in script["rounds"]:
+            kept_dist["change=" + op.get("kind", "none")] += 1
+        if k < 1:
+            ctx.samples.append({"kept_cube_script": script})
+    ctx.coverage["kept_cubes"] = dict(sorted(kept_dist.items()))
     n_exh = 0
     if thorough:
         for case in exhaustive_cases():
@@ -546,6 +633,14 @@ def replay(ctx, path):
     bad = []
     items = r.get("failing_inputs") or r.get("disagreeing_cases") or []
     for c in items:
+        if c.get("kept"):
+            rs = [(rnd, which, judge(case, out)) for case, out, rnd, which in run_kept_cube(ctx, c["kept"]) if in_domain(case)]
+            rs = [x for x in rs if x[2]]
+            print("kept cube over dims=%s, %d rounds -> %s" % ([(s["arr"], s["common"]) for s in c["kept"]["dims"]], len(c["kept"]["rounds"]),
+                                                               "VIOLATES " + json.dumps(rs[:3]) if rs else "ok"))
+            if rs:
+                bad.append({"kept": c["kept"], "difference": rs[0][2], "round": rs[0][0]})
+            continue
         case = strip(c)
         out = run_cube(case)
         b = judge(case, out) if in_domain(case) else None
